@@ -8,12 +8,14 @@
    The value of the text (rep_value) is a real number; |f| = a/den, sign neg,
    t = int (log |f| / log 10) as the code computes it.
    Model/Report.v (skeleton): which rows each block of the report has.
-   PARTIAL: (a) the text <-> rep_value reading is the obvious one and is not a
-   parsed string in Coq (the oracle re-reads every number of real reports with
-   Python's float()); (b) the magnitude / phase columns and the per-table use
-   of the formatter are checked by the oracle on real reports. *)
+   Reading back: Proofs/FormatT.v has a character-level reader (sign, digits,
+   point, digits, E, sign, digits, blanks) and proves that it accepts every
+   text the formatter renders and returns exactly rep_value; stage `fmt` also
+   runs that reader inside Coq on the REAL texts and compares with Python's
+   Decimal.  PARTIAL: the magnitude / phase columns and the per-table use of
+   the formatter are checked by the oracle on real reports. *)
 From Coq Require Import ZArith NArith List Bool Arith Reals.
-From PM Require Import Base.Num Base.Cplx Model.Format Model.Topology Model.Report Proofs.FormatP Proofs.FormatR Proofs.ReportS.
+From PM Require Import Base.Num Base.Cplx Model.Format Model.Topology Model.Report Proofs.FormatP Proofs.FormatR Proofs.FormatT Proofs.ReportS.
 Import ListNotations.
 Local Open Scope R_scope.
 
@@ -59,6 +61,22 @@ Theorem C19_power_of_ten_robust :
     rep_value (format_float neg (p10 L * den) den (Z.of_nat L - 1) use_e) = sgn neg * 10 ^ L.
 Proof. exact format_power_of_ten. Qed.
 Print Assumptions C19_power_of_ten_robust.
+
+(* every text the formatter can render is read back, character by character, as exactly its value *)
+Theorem C19_rendered_text_reads_back :
+  forall r : rep, wf_rep r -> exists d, parse (render r) = Some d /\ dec_value d = rep_value r.
+Proof. exact parse_render. Qed.
+Print Assumptions C19_rendered_text_reads_back.
+
+(* the headline in one statement: for |f| >= 1 the characters format_float produces, parsed back, are within
+   5e-7 relative of f *)
+Theorem C19_seven_digits_text :
+  forall neg a den (L : nat) use_e, (0 < den)%N -> (p10 L * den <= a)%N -> (a < p10 (S L) * den)%N ->
+    let x := NR a / NR den in
+    exists d, parse (render (format_float neg a den (Z.of_nat L) use_e)) = Some d /\
+              Rabs (dec_value d - sgn neg * x) <= x / 2000000.
+Proof. exact seven_digits_text. Qed.
+Print Assumptions C19_seven_digits_text.
 
 (* structure: the geometry blocks list every pulse exactly once, in pulse order *)
 Theorem C19_geometry_rows :
